@@ -219,7 +219,9 @@ def _ref_layout(t, metal, base, fields):
         if probe is None:
             return None
         z, a = probe
-        for i in range(t[1]):
+        # long arrays: elements 0, 1 and the last one decide whether two field lists are equal (every element has a leaf)
+        idx = range(t[1]) if t[1] <= 8 else (0, 1, t[1] - 1)
+        for i in idx:
             _ref_layout(t[2], metal, base + i * z, fields)
         return z * t[1], a
     if k == "S":
@@ -248,7 +250,7 @@ class C19(Prop):
         "reference layout rules = Layout.v spec_sa/spec_fields (trusted statement of HLSL structured-buffer packing and Metal struct layout)",
         "model: coq/model/Layout.v mirrors get_type_layout/get_field_offsets/check_layout (hand-written; tied by correspondence)",
         "scalar sizes and the no-layout scalar arm regenerated from ir/src/ir_types.rs and ir/src/layout_checker.rs",
-        "u32 arithmetic modelled in N (no claim for sizes >= 2^32); matrices/objects have no layout (UNKNOWN)",
+        "sizes are computed in N; the implementation's checked u32 arithmetic is modelled by `check32` (a struct's running size, its rounded size, an array's size or length that does not fit in 32 bits => UNKNOWN), which is what the extracted model runs and what C19_check32_sound / C19_check32_reports_truth are about; cases with sizes around 2^32 are part of every run; matrices/objects have no layout (UNKNOWN)",
     ]
 
     def oracle(self, case, impl, model=None):
